@@ -1,10 +1,45 @@
 """C14 facts: decision shape of the wildcard code (glom/core.py `_t_eval` 'x'/'X' branch,
 `_extend_children`, `TType.__stars__`; glom/mutation.py `_apply_for_each`).
 
-Emits lean/Glom/Generated/C14Facts.lean (flags + the exception classes each `except` names).
+Emits lean/Glom/Generated/C14Facts.lean (flags + the exception classes each `except` names +
+c14RemainderRoot: per root of the original path (T / S / A) the root of the path `todo` that the
+'x' / 'X' branch evaluates on every child — T: the remainder continues from the child; S: it starts
+again from the scope and ignores the child).
 An unrecognised shape is reported through P.add and yields `false` / an empty table.
 """
 import ast
+
+
+def _root_of(expr, r):
+    """value of a root expression built from `root`, the names T / S / A and `x if root is N else y`
+    when the original path is rooted at `r` ('?' when the expression is of another form)"""
+    if isinstance(expr, ast.Name):
+        if expr.id == 'root':
+            return r
+        if expr.id in ('T', 'S', 'A'):
+            return expr.id
+        return '?'
+    if isinstance(expr, ast.IfExp):
+        t = expr.test
+        if (isinstance(t, ast.Compare) and len(t.ops) == 1 and isinstance(t.left, ast.Name) and t.left.id == 'root'
+                and isinstance(t.comparators[0], ast.Name) and t.comparators[0].id in ('T', 'S', 'A')):
+            if isinstance(t.ops[0], ast.Is):
+                cond = (r == t.comparators[0].id)
+            elif isinstance(t.ops[0], ast.IsNot):
+                cond = (r != t.comparators[0].id)
+            else:
+                return '?'
+            return _root_of(expr.body if cond else expr.orelse, r)
+        if isinstance(t, ast.BoolOp) and isinstance(t.op, ast.Or):
+            # `root is S or root is A`
+            vals = []
+            for v in t.values:
+                if not (isinstance(v, ast.Compare) and len(v.ops) == 1 and isinstance(v.ops[0], ast.Is)
+                        and ast.unparse(v.left) == 'root' and isinstance(v.comparators[0], ast.Name)):
+                    return '?'
+                vals.append(v.comparators[0].id)
+            return _root_of(expr.body if r in vals else expr.orelse, r)
+    return '?'
 
 
 def extract(ctx):
@@ -70,6 +105,7 @@ def extract(ctx):
     # ---- the 'x' / 'X' branch of _t_eval
     star_shape = False
     rec_caught = []
+    rem_root = []
     te = find_def(core, '_t_eval')
     if te is None:
         P.add('_t_eval not found')
@@ -99,7 +135,15 @@ def extract(ctx):
                 assert bsrc[3] == 'nxt.insert(0, cur)'
                 assert src[3] == 'cur = []'
                 assert src[4] == 'todo = TType()'
-                assert src[5] == 'todo.__ops__ = (root,) + t_path[i + 2:]'
+                # `todo.__ops__ = (<root of the remainder>,) + t_path[i + 2:]`: which root the path evaluated
+                # on every child gets, per root of the original path
+                asg = branch.body[5]
+                assert isinstance(asg, ast.Assign) and ast.unparse(asg.targets[0]) == 'todo.__ops__'
+                val = asg.value
+                assert isinstance(val, ast.BinOp) and isinstance(val.op, ast.Add)
+                assert ast.unparse(val.right) == 't_path[i + 2:]'
+                assert isinstance(val.left, ast.Tuple) and len(val.left.elts) == 1
+                rem_root = [(r, _root_of(val.left.elts[0], r)) for r in ('T', 'S', 'A')]
                 loop = branch.body[6]
                 assert isinstance(loop, ast.For) and ast.unparse(loop.iter) == 'nxt'
                 tr = loop.body[0]
@@ -111,6 +155,7 @@ def extract(ctx):
                 star_shape = True
             except (AssertionError, IndexError, AttributeError) as e:
                 P.add("_t_eval 'xX' branch: unrecognised shape (%r)" % (e,))
+                rem_root = []
 
     # ---- TType.__stars__
     stars_ok = False
@@ -152,6 +197,7 @@ def extract(ctx):
         ('c14SeqGuardTypes', 'List String', seq_guard),
         ('c14StarBranchShape', 'Bool', bool(star_shape)),
         ('c14RecursionCaught', 'List String', rec_caught),
+        ('c14RemainderRoot', 'List (String × String)', rem_root),
         ('c14StarsCountsBoth', 'Bool', bool(stars_ok)),
         ('c14FromTextMapsStars', 'Bool', bool(from_text_ok)),
         ('c14ApplyForEachShape', 'Bool', bool(afe_ok)),
